@@ -22,9 +22,11 @@ def powiF (x : Float) (n : Int) : Float :=
 def fmaxF (a b : Float) : Float :=
   if a.isNaN then b else if b.isNaN then a else if a < b then b else a
 
-/-- `Number::eq`: `a == b || (a - b).abs() <= f64::EPSILON * a.abs().max(b.abs())` -/
+/-- `Number::eq` (commits f2e4863, ad53320):
+`a == b || (diff.is_finite() && diff <= f64::EPSILON * a.abs().max(b.abs()))` -/
 def numberEqF (a b : Float) : Bool :=
-  a == b || (a - b).abs <= Float.ofBits 0x3CB0000000000000 * fmaxF a.abs b.abs
+  let diff := (a - b).abs
+  a == b || (diff.isFinite && diff <= Float.ofBits 0x3CB0000000000000 * fmaxF a.abs b.abs)
 
 /-- `Number::partial_cmp` -/
 def numberCmpF (a b : Float) : Option Ordering :=
